@@ -13,5 +13,5 @@ Alignments == UNION {[1..n -> Entries] : n \in 1..MaxLen}
 Init == \E a \in Alignments : FilesInit(a)
 Next == FilesNext
 Spec == Init /\ [][Next]_avars
-Report == IF Done THEN PrintT(ToJson([al |-> al, prows |-> prows, arows |-> arows, crows |-> crows])) ELSE TRUE
+Report == IF Done THEN PrintT(ToJson([al |-> al, prows |-> prows, arows |-> arows, crows |-> crows, nback |-> NBack(al)])) ELSE TRUE
 =============================================================================
